@@ -416,6 +416,7 @@ Inductive xevent :=
 | XE (e : event)
 | XDialSlow (c : nat)
 | XCloseGo (h : nat)
+| XBreak (h : nat)    (* drive handle h to TRANSIENT_FAILURE (must change nothing in the manager) *)
 | XAgain (i : nat).   (* one more goroutine calls the done function of thread i while a call of it is in flight *)
 
 Record xobs := XObs {
@@ -436,6 +437,7 @@ Section Wrap.
 Context {S : Type}.
 Variable inner : S -> event -> S * obs.
 Variable needs_lock : S -> event -> bool.
+Variable has_handle : S -> nat -> bool.
 
 Record wst := {
   w_s : S;
@@ -516,6 +518,10 @@ Definition xrun (w : wst) (xe : xevent) : wst * xobs :=
           else xignored w
       | None => xignored w
       end
+  | XBreak h =>
+      if has_handle (w_s w) h && negb (mem h (w_closed w))
+      then (w, XObs (quiet_obs false w) [] [])
+      else xignored w
   | XAgain i =>
       match w_park w with
       | Some (h, closer) =>
@@ -559,8 +565,14 @@ Definition k_needs (ks : kstate) (e : event) : bool :=
 Definition xm_init : @wst state := wmk init [] [] None false None [].
 Definition xk_init : @wst kstate := wmk kinit [] [] None false None [].
 
-Definition xmrun := xrun mrun m_needs.
-Definition xkstep := xrun kstep k_needs.
+Definition m_handle (s : state) (h : nat) : bool :=
+  match objs s h with Some o => match c_cc o with Some _ => true | None => false end | None => false end.
+
+Definition k_handle (ks : kstate) (h : nat) : bool :=
+  match k_d ks h with Some (_, DOk) => true | _ => false end.
+
+Definition xmrun := xrun mrun m_needs m_handle.
+Definition xkstep := xrun kstep k_needs k_handle.
 
 (** a thread is handed a connection that is already shut down *)
 Definition handed_closed (o : obs) : bool :=
